@@ -67,3 +67,4 @@ def silence_logger():
     from fandango.logger import LOGGER
 
     LOGGER.setLevel(logging.CRITICAL + 1)
+    LOGGER.disabled = True  # Fandango() resets the level; `disabled` survives it
